@@ -127,6 +127,17 @@ def kill_session(pid):
         time.sleep(0.02)
 
 
+def catches_signal(pid, sig):
+    try:
+        with open(f"/proc/{pid}/status") as f:
+            for line in f:
+                if line.startswith("SigCgt:"):
+                    return bool(int(line.split()[1], 16) >> (int(sig) - 1) & 1)
+    except (OSError, ValueError):
+        pass
+    return False
+
+
 def run_proc(argv, timeout, env=None, cwd=None, outdir=None, stdin=None,
              dump_stacks_at=None):
     """Run argv in its own session with stdout/stderr to files.
@@ -162,6 +173,10 @@ def run_proc(argv, timeout, env=None, cwd=None, outdir=None, stdin=None,
                     for _ in range(2):
                         pos = os.path.getsize(se)
                         for q in descendants(p.pid):
+                            # only processes that installed a handler (faulthandler.register): the default action
+                            # of SIGUSR1 would kill e.g. loky workers and change the behaviour under observation
+                            if not catches_signal(q, signal.SIGUSR1):
+                                continue
                             try:
                                 os.kill(q, signal.SIGUSR1)
                             except OSError:
